@@ -282,6 +282,7 @@ fn int_of_float_is_exact_or_error() {
     std::mem::forget(ctx);
 }
 
+/* NOT KEPT (did not finish in 300 s on the pristine tree: the string arm of `float` (dec2flt) is explored for every call)
 // ---------------------------------------------------------------------------------------------
 // float.  KNOWN (already reported, kept out): integers of magnitude above 2^53 are silently
 // rounded to the nearest float instead of failing.
@@ -327,6 +328,8 @@ fn float_is_exact_up_to_2_53() {
     std::mem::forget((kw, st));
     std::mem::forget(ctx);
 }
+
+*/
 
 // ---------------------------------------------------------------------------------------------
 // round (no `method`, `precision` = 0): "round to the nearest integer"
@@ -444,6 +447,7 @@ default_harness!(default_boolean_replaces_falsy_numbers, for_each_number, Some(t
 // killed by: `let boolean = kwargs.get::<bool>("boolean")?.is_some()`
 default_harness!(default_boolean_false_is_plain, for_each_non_number, Some(false), false);
 
+/* NOT KEPT (did not finish in 300 s: char::to_uppercase / str::to_lowercase table searches need an unwinding bound under which the drop glue of Kwargs/Value explodes)
 // ---------------------------------------------------------------------------------------------
 // capitalize on a string whose FIRST character is multi-byte: no panic (no byte-index slicing
 // inside a character), result not empty.  (UTF-8 validity of the result is its type, String,
@@ -469,3 +473,5 @@ fn capitalize_multibyte_first_char() {
     std::mem::forget((out, st));
     std::mem::forget(ctx);
 }
+*/
+
